@@ -47,4 +47,11 @@ for h in HARNESSES:
         h["tiers"] = {"thorough": dict(q, timeout=900)}; h["core"] = False; h["mem_gb"] = 8      # range setting with symbolic bounds over 16 words: no verdict in 6 min
     elif n in ("parse_hwloc", "parse_taskset", "roundtrip_taskset", "cursor_abstract_hwloc", "cursor_abstract_taskset"):
         h["tiers"] = {"quick": h["tiers"]["quick"], "thorough": dict(h["tiers"]["quick"]) if n.startswith(("roundtrip", "cursor")) else h["tiers"]["thorough"]}
-OUTSIDE = ["the three *_asprintf functions and the list-format round trip (blocks of symbolic size / solver memory: stretch harnesses, no verdict)", "bitmaps with more than 2 explicit words", "texts longer than CAP", "locale effects", "allocation failure"]
+# the *_asprintf bodies (copied out of the current bitmap.c by the driver) against a contract of the printer they call, with the
+# allocation request observed instead of materialised
+for f in (2, 0, 1):
+    d = {"FMT": f, "NW": 1, "CAP": 24, "VP_MEM_K": 48, "SIZED_MALLOC": 1, "SIZED_CAP": 64, "ASP_CONTRACT": 1, "ACAP": 40}
+    add("asprintf_contract_" + FN[f], "h_asprintf_contract", ASP[f], {"quick": {"defines": d, "unwind": 68, "bounds": "ANY text of 0..40 non-NUL characters reported by the printer (contract stand-in), any 1-word set"}, "thorough": {"defines": dict(d, ACAP=56), "unwind": 68, "bounds": "ANY text of 0..56 characters"}},
+        env=["vp_alloc.c"], units=[], cost=30, gen=[("asp.inc", "hwloc/bitmap.c", ["hwloc_bitmap_asprintf", "hwloc_bitmap_list_asprintf", "hwloc_bitmap_taskset_asprintf"], "__vp")],
+        stubs=["hwloc_bitmap_{,list_,taskset_}snprintf: contract stand-in (arbitrary text, conforming truncation); the printers themselves: cursor_abstract_*", "malloc inside asprintf: constant-size block + recorded request (a block of symbolic size does not conclude)"])
+OUTSIDE = ["*_asprintf composed with the true printers and the list-format round trip (blocks of symbolic size / solver memory: stretch harnesses, no verdict; asprintf is decided against the printer contract by asprintf_contract_*)", "bitmaps with more than 2 explicit words", "texts longer than CAP", "locale effects", "allocation failure"]
